@@ -488,6 +488,70 @@ def expect_encode_error(ctx, real, V2, w, what):
 	return False
 
 
+def loose_presence(ctx, r, idx):
+	""" Presence callbacks that do not return a bool (a flag value 0 / 1, a masked bit, None, a string).  What such a result
+	    means is the codec's business; encoder and decoder must agree on it: the encoding decodes without error, every
+	    decoded field that was given for encoding comes back equal, and re-encoding reproduces the octets. """
+	style = r.randrange(5)
+	cb = [lambda v: v["flag"], lambda v: v["flag"] & 1, lambda v: v["flag"] or None,
+		lambda v: "" if v["flag"] == 0 else "yes", lambda v: [] if v["flag"] % 2 == 0 else [1]][style]
+	n_opt = r.randint(1, 4)
+	opt_kind = r.randrange(3)
+	tail_len = r.choice((1, 2, 4))
+	bo = r.choice(("big", "little"))
+
+	def build():
+		flag = codec.Uint("flag", len = 1)
+		if opt_kind == 0:
+			opt = type("U", (codec.Uint,), {"BO": bo})("opt", len = n_opt)
+		elif opt_kind == 1:
+			opt = codec.Buf("opt", len = n_opt)
+		else:
+			inner = type("N", (codec.Envelope,), {"STRUCT": (codec.Uint("x", len = 1), codec.Buf("y", len = n_opt))})()
+			opt = inner.f("opt", len = 1 + n_opt)
+		opt.get_pres = cb
+		tail = codec.Buf("tail", len = tail_len)
+		return type("Loose", (codec.Envelope,), {"STRUCT": (flag, opt, tail)})(check_len = True)
+	for flagval in (0, 1, 2, 3, r.randrange(256)):
+		real = build()
+		V = {"flag": flagval, "tail": r.randbytes(tail_len)}
+		V["opt"] = r.getrandbits(8 * n_opt) if opt_kind == 0 else r.randbytes(n_opt) if opt_kind == 1 \
+			else {"x": r.randrange(256), "y": r.randbytes(n_opt)}
+		w = {"presence_callback_style": ["flag value", "flag & 1", "flag or None", "'' / 'yes'", "[] / [1]"][style],
+			"optional_field": ["Uint", "Buf", "nested envelope"][opt_kind], "values": repr(V)[:200]}
+		ctx.seen(hash(("loose", style, opt_kind, n_opt, tail_len, flagval)))
+		real.c.clear()
+		real.c.update(V)
+		try:
+			enc = bytes(real.to_bytes())
+		except Exception as e:
+			ctx.violation("loose-presence", w, what = "to_bytes() fails although a value is given for every field: %s" % type(e).__name__)
+			return
+		other = build()
+		res = real_decode(ctx, other, enc)
+		ctx.count("loose_presence_roundtrips")
+		if res[0] != "ok":
+			ctx.violation("loose-presence", dict(w, encoded = enc.hex()),
+				what = "the decoder does not accept what the encoder produced for a presence callback returning %r (%s)"
+				% (cb(V), "DecodeError" if res[0] == "reject" else type(res[1]).__name__))
+			return
+		_, got, used = res
+		bad = [k for k in got if k in V and not subset(V[k], got[k])]
+		if bad or used != len(enc):
+			ctx.violation("loose-presence", dict(w, encoded = enc.hex(), decoded = repr(got)[:200]),
+				what = "encoder and decoder disagree on a presence callback returning %r: %s" % (cb(V),
+				("fields %s differ" % bad) if bad else "%d of %d octets consumed" % (used, len(enc))))
+			return
+		try:
+			again = bytes(other.to_bytes())
+		except Exception as e:
+			ctx.violation("loose-presence", w, what = "re-encoding the decoded message fails: %s" % type(e).__name__)
+			return
+		if again != enc:
+			ctx.violation("loose-presence", dict(w, encoded = enc.hex(), again = again.hex()), what = "re-encoding the decoded message gives other octets")
+			return
+
+
 def run(ctx):
 	ctx.rule = ("random protocol definitions (integers of 1..8 octets, both byte orders, signed/unsigned, offset and multiplier; fixed, "
 		"length-prefixed and rest-of-data buffers; spares; MSB- and LSB-first bit-field sets of 1..4 octets with fixed-value and spare "
@@ -500,7 +564,14 @@ def run(ctx):
 			check_definition(ctx, r, i)
 		if ctx.too_many() or ctx.time_left() < 0:
 			break
+	rl = ctx.rng("c16-loose")
+	for i in range(ctx.scale(300, 20000)):
+		if ctx.mine(i):
+			loose_presence(ctx, rl, i)
+		if ctx.too_many():
+			break
 	ctx.require("definitions", 200)
+	ctx.require("loose_presence_roundtrips", 100)
 	ctx.require("roundtrips", 2000)
 	for k in ("truncated_reject", "trailing_reject", "bitflip_ok", "bitflip_reject", "random_reject", "trailing_ok"):
 		ctx.require("inputs_" + k, 20)
